@@ -293,3 +293,28 @@ func sourceLoops(f *ssa.Function) []ast.Node {
 	})
 	return out
 }
+
+// initialiserContains reports whether the package-level variable's initialiser source contains text
+func (p *program) initialiserContains(pkg, name, text string) bool {
+	pp := p.ppkgs[pkg]
+	if pp == nil {
+		return false
+	}
+	for _, f := range pp.Syntax {
+		for _, d := range f.Decls {
+			gd, ok := d.(*ast.GenDecl)
+			if !ok || gd.Tok != token.VAR {
+				continue
+			}
+			for _, sp := range gd.Specs {
+				vs := sp.(*ast.ValueSpec)
+				for i, n := range vs.Names {
+					if n.Name == name && i < len(vs.Values) {
+						return strings.Contains(p.src(vs.Values[i].Pos(), vs.Values[i].End()), text)
+					}
+				}
+			}
+		}
+	}
+	return false
+}
